@@ -22,6 +22,7 @@ import (
 	"regexp"
 	"strings"
 	"sync"
+	"sync/atomic"
 	"time"
 
 	"github.com/google/uuid"
@@ -119,6 +120,11 @@ type Scenario struct {
 	// unchanged code blocks in the channel send when BlockAt < number of
 	// messages), then sends the fence and reads the channels until the fence
 	// has come through.
+	// Race: the first Race messages (route process or transmit) are handed to the overlay
+	// CONCURRENTLY, each from its own goroutine as if they had arrived on different
+	// connections, while the protocol constructor is slow: they race for the creation of
+	// the instance.  The order in which they were accepted is read off the batch.
+	Race    int  `json:"race,omitempty"`
 	Backlog bool `json:"backlog,omitempty"`
 	BlockAt int  `json:"block_at,omitempty"`
 	// WaitMs overrides the deadline after which a fence is declared missing.
@@ -200,6 +206,13 @@ type proto struct {
 		*onet.TreeNode
 		MsgCB2
 	}
+	kept []keptBatch
+}
+
+// keptBatch is a batch a handler has kept: how to read it again, what it said when it was delivered
+type keptBatch struct {
+	again func() []Elem
+	was   []Elem
 }
 
 type cluster struct {
@@ -339,6 +352,9 @@ func (w *worker) deliver(p *proto, typ int, agg bool, elems []Elem) {
 }
 
 func newProto(tni *onet.TreeNodeInstance) (onet.ProtocolInstance, error) {
+	if d := time.Duration(atomic.LoadInt64(&slowCtor)); d > 0 {
+		time.Sleep(d) // NewProtocol of a real service takes its time, too
+	}
 	p := &proto{TreeNodeInstance: tni}
 	if err := p.RegisterChannelsLength(100, &p.c1, &p.ca, &p.ca2); err != nil {
 		return nil, err
@@ -374,6 +390,17 @@ func newProto(tni *onet.TreeNodeInstance) (onet.ProtocolInstance, error) {
 				es = append(es, Elem{w.pos(p, m.TreeNode), m.P})
 			}
 			w.deliver(p, THA, true, es)
+			// the handler KEEPS the batch it was given (protocols combine the answers of several
+			// rounds later); at every fence it is read again and must still say the same
+			w.mu.Lock()
+			p.kept = append(p.kept, keptBatch{again: func() []Elem {
+				var es2 []Elem
+				for _, m := range ms {
+					es2 = append(es2, Elem{w.pos(p, m.TreeNode), m.P})
+				}
+				return es2
+			}, was: es})
+			w.mu.Unlock()
 			return nil
 		},
 		func(ms []struct {
@@ -401,6 +428,24 @@ func (p *proto) Start() error { return nil }
 
 // drain reads whatever sits in the instance's channels (in a fixed order).
 func (w *worker) drain(p *proto) {
+	// batches the aggregated handler kept: a batch whose content has changed since it was delivered
+	// is reported as what it is now -- a delivery nobody is due
+	w.mu.Lock()
+	kept := p.kept
+	w.mu.Unlock()
+	for i := range kept {
+		now := kept[i].again()
+		same := len(now) == len(kept[i].was)
+		for j := 0; same && j < len(now); j++ {
+			same = now[j] == kept[i].was[j]
+		}
+		if !same {
+			w.deliver(p, THA, true, now)
+			w.mu.Lock()
+			p.kept[i].was = now
+			w.mu.Unlock()
+		}
+	}
 	for {
 		select {
 		case m := <-p.c1:
@@ -474,6 +519,9 @@ func mkMsg(typ int, p int64) interface{} {
 }
 
 var waitFor = 20 * time.Second
+
+// slowCtor (nanoseconds): how long the protocol constructor takes (Race scenarios)
+var slowCtor int64
 
 func (w *worker) run(sc *Scenario) {
 	res := Result{}
@@ -583,6 +631,13 @@ func (w *worker) run(sc *Scenario) {
 			}
 		}
 	}
+	// the receivers also KNOW the second tree (another run, another service): a sender token may
+	// name it (Msg.OtherTree); the outsider and the root's server host its two nodes
+	for _, me := range sc.Insts {
+		if me >= 0 && me < len(nodes) {
+			w.local.Overlays[nodes[me].ServerIdentity.ID].RegisterTree(otherTree)
+		}
+	}
 
 	// ---- instances
 	protoID := onet.ProtocolNameToID(protoName)
@@ -638,8 +693,47 @@ func (w *worker) run(sc *Scenario) {
 	status := "alive"
 	detail := ""
 	seq := int64(0)
+	atomic.StoreInt64(&slowCtor, 0)
+	if sc.Race > 0 && sc.Race <= len(sc.Msgs) {
+		atomic.StoreInt64(&slowCtor, int64(30*time.Millisecond))
+		var wg sync.WaitGroup
+		bad := false
+		for i := 0; i < sc.Race; i++ {
+			m := sc.Msgs[i]
+			if m.Inst < 0 || m.Inst >= len(toks) || claimed[i] == nil || (m.Route != "process" && m.Route != "transmit") {
+				bad = true
+				break
+			}
+			to := toks[m.Inst]
+			ov := w.local.Overlays[w.servers[res.Nodes[sc.Insts[m.Inst]].Srv].ServerIdentity.ID]
+			from := to.ChangeTreeNodeID(*claimed[i])
+			peer := cl.envelopeIdentity(m.Peer, m.Decl)
+			body := mkMsg(m.Type, m.Payload)
+			buf, err := network.Marshal(body)
+			if err != nil {
+				bad = true
+				break
+			}
+			pm := &onet.ProtocolMsg{From: from, To: to, MsgSlice: buf, MsgType: network.MessageType(body)}
+			wg.Add(1)
+			go func() {
+				defer wg.Done()
+				ov.Process(&network.Envelope{ServerIdentity: peer, MsgType: onet.ProtocolMsgID, Msg: pm, Size: 1})
+			}()
+		}
+		if bad {
+			wg.Wait()
+			w.emit(line{End: "error", Det: "bad race scenario"})
+			return
+		}
+		wg.Wait()
+		atomic.StoreInt64(&slowCtor, 0)
+	}
 loop:
 	for i, m := range sc.Msgs {
+		if i < sc.Race {
+			continue // handed over concurrently above
+		}
 		if m.Inst < 0 || m.Inst >= len(toks) {
 			status, detail = "error", "bad instance index"
 			break
